@@ -171,6 +171,47 @@ func init() {
 		}
 		return "ok"
 	}
+	// Reorg: a second producer that shares the chain up to the node's frontier minus one confirms the node's POOLED user
+	// blocks first and the user blocks of the node's last momentum afterwards (so sends are confirmed in a different
+	// order than on the abandoned branch), ends one momentum longer, and the node is handed that branch.
+	ops.Extra["Reorg"] = func(n *vnode.Node, o ops.Op) string {
+		H := n.Height()
+		if H < 2 {
+			return "too-short"
+		}
+		dir := n.Opts.Dir + "-q"
+		q := vnode.New(vnode.Options{Dir: dir})
+		defer q.Destroy()
+		if H-1 >= 2 {
+			if _, err, pan := q.InsertChain(vnode.CloneBatch(n.Range(2, H-1))); err != nil || pan != nil {
+				return "err:prefix"
+			}
+		}
+		user := func(bs []*nom.AccountBlock) (out []*nom.AccountBlock) {
+			for _, b := range bs {
+				if b.BlockType == nom.BlockTypeUserSend || b.BlockType == nom.BlockTypeUserReceive {
+					out = append(out, vnode.CloneBlock(b))
+				}
+			}
+			return
+		}
+		for _, b := range user(n.PoolBlocks()) {
+			q.AddAccountBlocks([]*nom.AccountBlock{b}) // blocks that do not apply on the other branch are simply refused
+		}
+		if _, err := q.Produce(1); err != nil {
+			return "err:produce"
+		}
+		for _, b := range user(n.Detailed(H).AccountBlocks) {
+			q.AddAccountBlocks([]*nom.AccountBlock{b})
+		}
+		if _, err := q.Produce(0); err != nil {
+			return "err:produce"
+		}
+		if _, err, pan := n.InsertChain(vnode.CloneBatch(q.Range(H, q.Height()))); err != nil || pan != nil {
+			return "err:switch"
+		}
+		return "ok"
+	}
 	ops.Extra["Restart"] = func(n *vnode.Node, o ops.Op) string {
 		n.Restart()
 		return "ok"
@@ -189,7 +230,7 @@ func init() {
 		Assumptions: []string{
 			"mock genesis, live-network regime (receiver enforcement height 0)",
 			"the expected contract queue is recomputed from the confirmed chain (momentum by momentum, content order, block before descendants), never from the sequencer keys",
-			"reorganisations are covered for these invariants by re-evaluating them in C06's scenarios only indirectly (differential oracle); this check explores single-chain histories with pool replacement and restarts",
+			"reorganisations: a Reorg operation hands the node a one-longer branch built by a second producer that confirms the node's pooled user blocks before those of its last momentum (fork depth 1)",
 		},
 		Run: run,
 		Finish: func(tier string, m *xs.Result, ev *xs.Evidence) {
@@ -213,10 +254,13 @@ func alphabet(thorough bool) []ops.Op {
 		{K: "R", A: 1},
 		{K: "R", A: 1, B: 1}, // second oldest first (users may receive in any order)
 		{K: "Rdup", A: 1},
+		{K: "Rpooldup", A: 1}, // again, while the first receive is still unconfirmed
+		{K: "RdupOld", A: 1},  // again, acknowledging a momentum below the one that confirmed the first receive
 		{K: "Rwrong", A: 2, B: 1},
 		{K: "Rhi", A: 1, B: 0},
 		{K: "Rhi", A: 1, B: 1},
 		{K: "CRskip", B: 0},
+		{K: "Reorg"},
 	}
 	if thorough {
 		a = append(a,
@@ -240,6 +284,11 @@ func bases() []hx.Base {
 		{Name: "pending-user-sends+unconfirmed-calls", Prefix: []ops.Op{
 			{K: "Tx", A: 0, B: 1, T: 0, V: 11}, {K: "Tx", A: 2, B: 1, T: 1, V: 12}, M,
 			{K: "Call", S: "stake", A: 2, V: 20}, {K: "Call", S: "stake", A: 1, V: 10}, {K: "Call", S: "refund", A: 5},
+		}},
+		// one call confirmed and auto-received (contract receive pooled), a second call to the same contract still pooled: a
+		// reorganisation can confirm the second before the first
+		{Name: "pooled-contract-receive+pooled-call", Prefix: []ops.Op{
+			{K: "Call", S: "stake", A: 1, V: 10}, M, {K: "Call", S: "stake", A: 2, V: 20},
 		}},
 	}
 }
